@@ -1,6 +1,7 @@
 package worlds
 
 import (
+	"sync/atomic"
 	"strings"
 	"crypto/tls"
 	"io"
@@ -311,6 +312,8 @@ type SelectEvent struct {
 	// AvailStable: availability identical before and after the call (connection counts may
 	// have moved): enough to judge membership of the result in the available set
 	AvailStable bool
+	// CountMoves: connection-counter updates (passes of the countConn yield site) during the call
+	CountMoves int64
 }
 
 // RecSelector wraps the shipped policy and records every selection.
@@ -333,9 +336,11 @@ func (r *RecSelector) Select(pool l4proxy.UpstreamPool, cx *layer4.Connection) *
 	me := r.E.S.Name()
 	ev := SelectEvent{At: r.E.S.Elapsed(), Step: r.E.S.StepNow(), Client: cx.Conn.RemoteAddr().String(), By: me, Before: snapshot(pool), Result: -1}
 	p0 := r.E.S.ParksOf(me)
+	w0 := atomic.LoadInt64(&r.E.S.WatchPasses)
 	r.E.S.NoYield--
 	res := r.Inner.Select(pool, cx)
 	r.E.S.NoYield++
+	ev.CountMoves = atomic.LoadInt64(&r.E.S.WatchPasses) - w0
 	ev.After = snapshot(pool)
 	ev.EndStep, ev.EndAt = r.E.S.StepNow(), r.E.S.Elapsed()
 	ev.Exclusive = ev.EndStep-ev.Step == r.E.S.ParksOf(me)-p0
